@@ -4,6 +4,7 @@ import (
 	"bytes"
 	"encoding/json"
 	"runtime"
+	"runtime/debug"
 	"sort"
 	"strconv"
 	"strings"
@@ -51,6 +52,7 @@ func allGroups(r *sink) []group {
 		runTailCases(r, g, cases)
 	}})
 	gs = append(gs, group{"qr_history", func(r *sink, g *gstat) { runHistoryCases(r, g, r.Thorough()) }})
+	gs = append(gs, group{"qr_overlap", func(r *sink, g *gstat) { runOverlapCases(r, g) }})
 	gs = append(gs,
 		group{"db_pipeline", func(r *sink, g *gstat) { runDBCases(r, g, dbCases(r.Thorough())) }},
 		group{"labels_values_series", func(r *sink, g *gstat) { runLabelCases(r, g, labelCases(r.Thorough())) }},
@@ -198,6 +200,18 @@ func replayCase(r *sink, rp Replay) bool {
 		c.B.fix()
 		runtime.GOMAXPROCS(1)
 		runHistoryPair(r, &gstat{}, &c, true, nil)
+		return true
+	case "overlap":
+		var c OverlapCase
+		if err := json.Unmarshal(rp.Case, &c); err != nil {
+			ev.Fatal("replay: %v", err)
+		}
+		c.A.fix()
+		c.B1.fix()
+		c.B2.fix()
+		runtime.GOMAXPROCS(1)
+		debug.SetGCPercent(-1)
+		runOverlapCase(r, &gstat{}, &c, nil)
 		return true
 	case "pyro":
 		var c PyroCase
